@@ -64,13 +64,39 @@ func genAddr(r *RNG, groups []string) string {
 	}
 }
 
-func genBody(r *RNG, groups []string) string {
+// svcFor: a service group of the target whose protocol type admits the protocol.
+func svcFor(r *RNG, b *asaDev, proto string) string {
+	var ok []string
+	if b != nil {
+		for _, g := range b.SOrder {
+			k := b.SGroups[g].Kind
+			if k == proto || k == "tcp-udp" {
+				ok = append(ok, g)
+			}
+		}
+	}
+	if len(ok) == 0 {
+		return ""
+	}
+	return Pick(r, ok)
+}
+
+func genBody(r *RNG, groups []string) string { return genBodyS(r, groups, nil) }
+
+func genBodyS(r *RNG, groups []string, b *asaDev) string {
 	act := "permit"
 	if r.Chance(25) {
 		act = "deny"
 	}
 	proto := Pick(r, []string{"tcp", "tcp", "udp", "ip"})
 	s := fmt.Sprintf("%s %s %s %s", act, proto, genAddr(r, groups), genAddr(r, groups))
+	if g := svcFor(r, b, proto); proto != "ip" && g != "" && r.Chance(45) {
+		s += " object-group " + g
+		if r.Chance(8) {
+			s += " log"
+		}
+		return s
+	}
 	if proto != "ip" && r.Chance(70) {
 		s += fmt.Sprintf(" eq %d", Pick(r, []int{22, 25, 53, 80, 443}))
 	}
@@ -109,6 +135,21 @@ func genTarget(r *RNG) *asaDev {
 		b.Groups[g] = ms
 		b.GOrder = append(b.GOrder, g)
 	}
+	// service object-groups (30 % of the targets): protocol type and 1-3 ports
+	if r.Chance(30) {
+		for i, n := 0, 1+r.Intn(2); i < n; i++ {
+			g := fmt.Sprintf("s%d", i)
+			sg := &svcGroup{Kind: Pick(r, []string{"tcp", "udp", "tcp-udp", "tcp-udp"})}
+			for k := 1 + r.Intn(3); k > 0; k-- {
+				m := fmt.Sprintf("eq %d", Pick(r, []int{22, 25, 53, 80, 443}))
+				if !contains(sg.Ports, m) {
+					sg.Ports = append(sg.Ports, m)
+				}
+			}
+			b.SGroups[g] = sg
+			b.SOrder = append(b.SOrder, g)
+		}
+	}
 	perm := append([]string{}, intfNames...)
 	Shuffle(r, perm)
 	nm := 1 + r.Intn(3)
@@ -117,7 +158,7 @@ func genTarget(r *RNG) *asaDev {
 		name := in + "_in"
 		var ls []string
 		for i, n := 0, 1+r.Intn(6); i < n; i++ {
-			ls = append(ls, genBody(r, b.GOrder))
+			ls = append(ls, genBodyS(r, b.GOrder, b))
 		}
 		if r.Chance(70) {
 			ls = append(ls, "deny ip any4 any4")
@@ -125,6 +166,12 @@ func genTarget(r *RNG) *asaDev {
 		b.ACLs[name] = dedupBodies(ls)
 		b.AOrder = append(b.AOrder, name)
 		b.Bind["in "+in] = name
+	}
+	for _, g := range append([]string{}, b.SOrder...) {
+		if !b.groupReferenced(g) {
+			delete(b.SGroups, g)
+			b.SOrder = remove(b.SOrder, g)
+		}
 	}
 	// drop groups nobody references (Netspoc does not generate those)
 	for _, g := range append([]string{}, b.GOrder...) {
@@ -156,11 +203,24 @@ func (d *asaDev) renameGroup(from, to string) {
 	if _, ok := d.Groups[to]; ok || from == to {
 		return
 	}
-	d.Groups[to] = d.Groups[from]
-	delete(d.Groups, from)
-	for i, g := range d.GOrder {
-		if g == from {
-			d.GOrder[i] = to
+	if _, ok := d.SGroups[to]; ok {
+		return
+	}
+	if sg, ok := d.SGroups[from]; ok {
+		d.SGroups[to] = sg
+		delete(d.SGroups, from)
+		for i, g := range d.SOrder {
+			if g == from {
+				d.SOrder[i] = to
+			}
+		}
+	} else {
+		d.Groups[to] = d.Groups[from]
+		delete(d.Groups, from)
+		for i, g := range d.GOrder {
+			if g == from {
+				d.GOrder[i] = to
+			}
 		}
 	}
 	for a, ls := range d.ACLs {
@@ -362,6 +422,40 @@ func genDevice(r *RNG, b *asaDev) (*asaDev, []string) {
 			opaqueObj{"tunnel-group MANUALTG general-attributes", []string{"default-group-policy VPNGP-DRC-0"}})
 		say("manual-tunnel-group-chain")
 	}
+	// service groups on the device: narrower protocol type (the target widened it and uses it in lines of the other
+	// protocol too), other ports, other name
+	for _, g := range append([]string{}, a.SOrder...) {
+		sg := a.SGroups[g]
+		switch k := r.Intn(100); {
+		case k < 30 && sg.Kind == "tcp-udp":
+			keep := Pick(r, []string{"tcp", "udp"})
+			sg.Kind = keep
+			for n, ls := range a.ACLs {
+				var out []string
+				for _, l := range ls {
+					if contains(refsOf(l), g) && strings.Fields(l)[1] != keep {
+						continue
+					}
+					out = append(out, l)
+				}
+				if len(out) == 0 {
+					out = []string{"deny ip any4 any4"}
+				}
+				a.ACLs[n] = out
+			}
+			say("service-group-narrower-protocol-type")
+		case k < 55:
+			if r.Chance(50) && len(sg.Ports) > 1 {
+				sg.Ports = sg.Ports[1:]
+			} else if m := fmt.Sprintf("eq %d", Pick(r, []int{22, 25, 53, 80, 443})); !contains(sg.Ports, m) {
+				sg.Ports = append(sg.Ports, m)
+			}
+			say("service-group-edit-ports")
+		case k < 70:
+			a.renameGroup(g, fmt.Sprintf("%s-DRC-%d", g, r.Intn(3)))
+			say("service-group-rename")
+		}
+	}
 	if r.Chance(35) {
 		a.Groups["MANUAL"] = []string{"host 9.9.9.9", Pick(r, members)}
 		a.GOrder = append(a.GOrder, "MANUAL")
@@ -518,6 +612,7 @@ func parseDev(text string) *asaDev {
 	var curIntf string
 	var curGroup string
 	var curShut, curOpaque, curUnk bool
+	curSvc := ""
 	for _, line := range strings.Split(text, "\n") {
 		if line == "" {
 			continue
@@ -526,6 +621,8 @@ func parseDev(text string) *asaDev {
 			t := strings.TrimSpace(line)
 			if curGroup != "" && strings.HasPrefix(t, "network-object ") {
 				d.Groups[curGroup] = append(d.Groups[curGroup], strings.TrimPrefix(t, "network-object "))
+			} else if curSvc != "" && strings.HasPrefix(t, "port-object ") {
+				d.SGroups[curSvc].Ports = append(d.SGroups[curSvc].Ports, canonPort(strings.TrimPrefix(t, "port-object ")))
 			} else if curIntf != "" && strings.HasPrefix(t, "nameif ") {
 				d.Intfs = append(d.Intfs, [2]string{curIntf, strings.TrimPrefix(t, "nameif ")})
 				if curShut {
@@ -540,7 +637,7 @@ func parseDev(text string) *asaDev {
 			}
 			continue
 		}
-		curIntf, curGroup = "", ""
+		curIntf, curGroup, curSvc = "", "", ""
 		curShut, curOpaque, curUnk = false, false, false
 		w := strings.Fields(line)
 		switch {
@@ -549,6 +646,10 @@ func parseDev(text string) *asaDev {
 			curOpaque = true
 		case w[0] == "interface":
 			curIntf = w[1]
+		case strings.HasPrefix(line, "object-group service ") && len(w) == 4 && (w[3] == "tcp" || w[3] == "udp" || w[3] == "tcp-udp"):
+			curSvc = w[2]
+			d.SGroups[curSvc] = &svcGroup{Kind: w[3]}
+			d.SOrder = append(d.SOrder, curSvc)
 		case strings.HasPrefix(line, "object-group network "):
 			curGroup = w[2]
 			d.Groups[curGroup] = nil
@@ -652,6 +753,11 @@ func leftovers(d *asaDev) []string {
 	for _, g := range d.GOrder {
 		if strings.Contains(g, "-DRC-") && !d.groupReferenced(g) {
 			out = append(out, "object-group "+g)
+		}
+	}
+	for _, g := range d.SOrder {
+		if strings.Contains(g, "-DRC-") && !d.groupReferenced(g) {
+			out = append(out, "object-group service "+g)
 		}
 	}
 	for _, a := range d.AOrder {
